@@ -104,10 +104,11 @@ const (
 	brkNull        // (not in C08's list: used by C04 only)
 	brkCaseName    // the pointer names an entry that differs from an existing one by letter case only
 	brkUnsetMember // the pointer goes one token further, into a member the target's type knows but the target does not hold
+	brkThroughBool // the pointer goes through an additionalProperties / additionalItems that is a boolean
 	nBreaks
 )
 
-var breakNames = []string{"ok", "pointer-nowhere", "document-missing", "target-string", "target-number", "target-boolean", "target-array", "target-null", "pointer-case-variant", "pointer-into-unset-member"}
+var breakNames = []string{"ok", "pointer-nowhere", "document-missing", "target-string", "target-number", "target-boolean", "target-array", "target-null", "pointer-case-variant", "pointer-into-unset-member", "pointer-through-boolean-union"}
 
 // breakRef rewrites a (correct) reference so that it is unresolvable in the given way.
 func breakRef(ref string, mode int) string {
@@ -138,6 +139,8 @@ func breakRef(ref string, mode int) string {
 		return docPart + "#/x-bad/A"
 	case brkNull:
 		return docPart + "#/x-bad/Z"
+	case brkThroughBool:
+		return docPart + "#/definitions/BoolUnion/additionalProperties/title"
 	case brkUnsetMember:
 		if strings.Contains(ref, "#") {
 			return ref + "/not"
@@ -580,6 +583,12 @@ func (g *gspec) build() *built {
 		for _, d := range docs {
 			if _, isSwaggerOrDefs := d["title"]; !isSwaggerOrDefs {
 				d["x-bad"] = obj("S", "str", "N", num("5"), "B", true, "A", arr(num("1")), "Z", nil)
+				defs, _ := d["definitions"].(map[string]interface{})
+				if defs == nil {
+					defs = obj()
+					d["definitions"] = defs
+				}
+				defs["BoolUnion"] = obj("title", "bool-union", "additionalProperties", false, "additionalItems", true)
 			}
 		}
 	}
